@@ -704,6 +704,107 @@ pub async fn run_bytes_cfg(addr: String, certs: Certs, cfg: Cfg, seed: u64) -> O
 /// Several library subscribers open on a topic nobody has used yet at the same moment (separate clients, released by
 /// a barrier); a publisher then sends a few items and finishes. Every subscriber whose open() succeeded "registered
 /// before the first send" and must yield exactly the items.
+/// A publisher with a connection of its own publishes a burst, `finish()`es and goes away (client dropped: what a
+/// short-lived producer process does) while the topic is still behind — its only subscriber is slow to read, or not
+/// reading yet. `finish()` returned Ok, so everything accepted before it must still reach the subscriber.
+async fn run_publisher_exits(addr: String, certs: Certs, id: u64, items: usize, item_kib: usize, subscriber_reads_after_ms: u64) -> Outcome {
+    let topic = unique_topic("c03x", id);
+    let mk = |what: &str, e: String| Outcome::Inconclusive(format!("{}: {}", what, e));
+    let sub_client = match lib_client(&addr, &certs, None).await {
+        Ok(c) => c,
+        Err(e) => return mk("connect", e.to_string()),
+    };
+    let mut subscriber = match sub_client.subscriber(&topic).with_decoder(StringCodec).open().await {
+        Ok(s) => s,
+        Err(e) => return mk("open subscriber", e.to_string()),
+    };
+    // the registration must have taken effect before the first send: an auxiliary publisher's sentinel arrives
+    {
+        let aux_client = match lib_client(&addr, &certs, None).await {
+            Ok(c) => c,
+            Err(e) => return mk("connect", e.to_string()),
+        };
+        let mut aux = match aux_client.publisher(&topic).with_encoder(StringCodec).open().await {
+            Ok(p) => p,
+            Err(e) => return mk("open auxiliary publisher", e.to_string()),
+        };
+        let t0 = Instant::now();
+        let mut k = 0u64;
+        let mut established = false;
+        while t0.elapsed() < Duration::from_secs(15) {
+            if aux.send(String::sentinel(k)).await.is_err() {
+                return mk("aux send", "error".into());
+            }
+            k += 1;
+            if let Ok(Some(Ok(it))) = tokio::time::timeout(Duration::from_millis(200), subscriber.next()).await {
+                if it.is_sentinel().is_some() {
+                    established = true;
+                    break;
+                }
+            }
+        }
+        if !established {
+            return mk("precondition", "subscriber never saw a sentinel".into());
+        }
+        let _ = aux.finish().await;
+        // drain leftover sentinels
+        while let Ok(Some(Ok(_))) = tokio::time::timeout(Duration::from_millis(300), subscriber.next()).await {}
+    }
+    let filler = "z".repeat(item_kib * 1024);
+    let sent: Vec<String> = (0..items).map(|i| format!("exit-{:04}|{}", i, filler)).collect();
+    {
+        let pub_client = match lib_client(&addr, &certs, None).await {
+            Ok(c) => c,
+            Err(e) => return mk("connect", e.to_string()),
+        };
+        let mut publisher = match pub_client.publisher(&topic).with_encoder(StringCodec).open().await {
+            Ok(p) => p,
+            Err(e) => return mk("open publisher", e.to_string()),
+        };
+        for it in &sent {
+            match tokio::time::timeout(Duration::from_secs(10), publisher.send(it.clone())).await {
+                Ok(Ok(())) => {}
+                Ok(Err(e)) => return Outcome::Violated { sig: "send-error/publisher-exits".into(), detail: e.to_string() },
+                Err(_) => return mk("precondition", format!("the burst of {} × {} KiB did not fit the flow-control windows while the subscriber was not reading", items, item_kib)),
+            }
+        }
+        match tokio::time::timeout(Duration::from_secs(20), publisher.finish()).await {
+            Ok(Ok(())) => {}
+            Ok(Err(e)) => return Outcome::Violated { sig: "finish-error/publisher-exits".into(), detail: e.to_string() },
+            Err(_) => return mk("precondition", "finish() did not return within 20 s while the subscriber was not reading".into()),
+        }
+        // the producer goes away: publisher and client are dropped here, its connection closes
+    }
+    tokio::time::sleep(Duration::from_millis(subscriber_reads_after_ms)).await;
+    let mut got: Vec<String> = vec![];
+    while got.len() < sent.len() {
+        match tokio::time::timeout(Duration::from_secs(6), subscriber.next()).await {
+            Ok(Some(Ok(it))) => {
+                if it.is_sentinel().is_none() {
+                    got.push(it)
+                }
+            }
+            Ok(Some(Err(e))) => return Outcome::Violated { sig: "subscriber-error/publisher-exits".into(), detail: e.to_string() },
+            Ok(None) | Err(_) => break,
+        }
+    }
+    if got != sent {
+        let brief = |v: &Vec<String>| v.iter().map(|x| x[..9.min(x.len())].to_string()).collect::<Vec<_>>();
+        return Outcome::Violated {
+            sig: "lost/publisher-exits".into(),
+            detail: format!(
+                "a publisher on its own connection sent {} × {} KiB, finish() returned Ok, then its client was dropped; the subscriber (registered before, started reading {} ms later) yielded {} items: {:?}",
+                items,
+                item_kib,
+                subscriber_reads_after_ms,
+                got.len(),
+                brief(&got)
+            ),
+        };
+    }
+    Outcome::Held { delivered: got.len() }
+}
+
 /// where the concurrent-open scenario currently is (reported by its watchdog)
 static CO_PHASE: std::sync::Mutex<String> = std::sync::Mutex::new(String::new());
 fn co_phase(s: String) {
@@ -1036,6 +1137,14 @@ pub fn run(rep: &mut StageReport, tier: &str, seed: u64) {
                 Ok(Err((sig, d))) if sig == "INCONCLUSIVE" => Outcome::Inconclusive(d),
                 Ok(Err((sig, d))) => Outcome::Violated { sig: format!("lost/{}", sig.replace("subscriber/", "")), detail: d },
                 Err(_) => Outcome::Inconclusive("watchdog: idle-after-recovery scenario did not finish within 120 s".into()),
+            };
+            out.push((cfg, r));
+        }
+        for (i, (items, kib, wait)) in (if tier == "thorough" { vec![(24usize, 64usize, 500u64), (30, 64, 0), (12, 128, 1500), (200, 1, 300), (3, 512, 800)] } else { vec![(24usize, 64usize, 500u64), (200, 1, 0)] }).into_iter().enumerate() {
+            let cfg = Cfg { codec: "string", compression: None, batch: None, count: items, payload: kib * 1024, sizes: None, compressible: false, precompressed: false, id: 94_000 + i as u64 };
+            let r = match tokio::time::timeout(Duration::from_secs(120), run_publisher_exits(addr.clone(), certs.clone(), 94_000 + i as u64, items, kib, wait)).await {
+                Ok(o) => o,
+                Err(_) => Outcome::Inconclusive("watchdog: publisher-exits scenario did not finish within 120 s".into()),
             };
             out.push((cfg, r));
         }
